@@ -228,6 +228,8 @@ pub fn run(report: &Report, thorough: bool) -> Evidence {
         ("null value", br#"{"a":null}"#.to_vec()),
         ("empty string value", br#"{"as":"","a":""}"#.to_vec()),
         ("empty key", br#"{"":"x"}"#.to_vec()),
+        // values that are not empty but transliterate to nothing (the back-tick is Avro's separator): an empty candidate all the same
+        ("value that transliterates to nothing", br#"{"as":"`","a":"``","aser":"`"}"#.to_vec()),
         ("nested object", br#"{"a":{"b":"c"}}"#.to_vec()),
         ("trailing garbage", br#"{"a":"b"}xyz"#.to_vec()),
         ("invalid utf-8", vec![b'{', b'"', 0xff, 0xfe, b'"', b':', b'"', b'a', b'"', b'}']),
@@ -245,11 +247,13 @@ pub fn run(report: &Report, thorough: bool) -> Evidence {
         faults.push(Fault::Files { sel: None, ac: Some(valid_ac.as_bytes()[..n].to_vec()), label: format!("user auto-correct {:?} cut at byte {}/{}", valid_ac, n, valid_ac.len()) });
     }
     faults.push(Fault::Files { sel: Some(br#"{"as":""}"#.to_vec()), ac: Some(br#"{"as":""}"#.to_vec()), label: "both files with empty string entries".into() });
+    faults.push(Fault::Files { sel: Some(br#"{"as":"`"}"#.to_vec()), ac: Some(br#"{"as":"`"}"#.to_vec()), label: "both files with entries that transliterate to nothing".into() });
     // an empty auto-correct value (an empty candidate) together with a learned choice for the same word, for
     // every candidate the word has on the tiny database
     for (w, cands) in [("as", ["\u{0986}\u{09B8}", "\u{0986}\u{09B6}", "\u{098F}\u{09B8}", "\u{0986}\u{0981}\u{09B6}"])] {
         for c in cands {
             faults.push(Fault::Files { sel: Some(format!("{{\"{}\":\"{}\"}}", w, c).into_bytes()), ac: Some(format!("{{\"{}\":\"\"}}", w).into_bytes()), label: format!("auto-correct {{\"{}\":\"\"}} and store {{\"{}\":\"{}\"}}", w, w, c) });
+            faults.push(Fault::Files { sel: Some(format!("{{\"{}\":\"{}\"}}", w, c).into_bytes()), ac: Some(format!("{{\"{}\":\"`\"}}", w).into_bytes()), label: format!("auto-correct {{\"{}\":\"`\"}} and store {{\"{}\":\"{}\"}}", w, w, c) });
         }
     }
     faults.extend([Fault::DirMissing, Fault::DirIsFile, Fault::SelPathIsDir, Fault::AcPathIsDir]);
